@@ -24,22 +24,6 @@ theorem lm_held_le_capacity (c : LM.Cfg) (n : Nat) (s : LM.St)
 example : ∃ s, TS.Reachable (LM.step? ⟨1, false⟩) (LM.init 2) s ∧ LM.held s = 1 ∧ s.inUse = 2 :=
   ⟨_, ⟨[.start 0, .inc 0, .start 1, .inc 1], rfl⟩, by decide⟩
 
-theorem set_cases {α} (l : List α) (r0 r : Nat) (new pc pc' : α)
-    (h' : (l.set r0 new)[r]? = some pc') (h : l[r]? = some pc) : (r0 = r ∧ pc' = new) ∨ pc' = pc := by
-  by_cases e : r0 = r
-  · subst e
-    rw [get_set_self l r0 pc new h] at h'
-    exact Or.inl ⟨rfl, (Option.some.inj h').symm⟩
-  · rw [List.getElem?_set_ne e] at h'
-    rw [h] at h'; exact Or.inr (Option.some.inj h').symm
-
-/-- a reader inside `get` -/
-def lmInGet : LM.Pc → Bool
-  | .want | .over | .slow | .wantLock | .locked | .willWait | .parked | .woken | .unlocking | .postUnlock => true
-  | _ => false
-
-theorem lmInGet_wake (pc : LM.Pc) : lmInGet (LM.wake pc) = lmInGet pc := by cases pc <;> rfl
-
 /-- **readers_block_not_drop** (low-memory pool): whatever step any goroutine takes, a reader that is
     inside `get` is afterwards still inside `get` (blocked or retrying) or has returned with an event —
     and it returns only through the `Inc` that found the counter below the capacity. -/
@@ -112,19 +96,6 @@ theorem lm_readers_block_not_drop (c : LM.Cfg) (s s' : LM.St) (op : LM.Op) (r : 
     · subst e; exact Or.inl hin
 
 example : lmInGet .parked = true := rfl
-
-/-- a reader inside the standard pool's `get` -/
-def stdInGet : Std.Pc → Bool
-  | .tkt | .try_ .. | .slowInc _ | .wantLock _ | .willWait _ | .parked _ | .woken _ | .unlocking _
-  | .postUnlock _ | .taken _ | .out _ => true
-  | _ => false
-
-theorem stdInGet_wake (pc : Std.Pc) : stdInGet (Std.wake pc) = stdInGet pc := by cases pc <;> rfl
-
-theorem stdInGet_casFail (x c t : Nat) : stdInGet (Std.casFail x c t) = true := by
-  unfold Std.casFail; split
-  · rfl
-  · split <;> rfl
 
 set_option hygiene false in
 /-- the moving reader `r0` is inside get before and after (or returns with an event) -/
